@@ -41,8 +41,8 @@ theorem sumR_filter_map {α : Type} (l : List α) (q : α → Bool) (h : α → 
   | nil => rfl
   | cons x xs ih =>
     by_cases hq : q x
-    · simp [List.filter_cons, hq, ih]
-    · simp [List.filter_cons, hq, ih]
+    · simp [hq, ih]
+    · simp [hq, ih]
 
 theorem sumR_flatMap_filter_map {α β : Type} (l : List α) (f : α → List β) (p : β → Bool) (g : β → Rat) :
     sumR (((l.flatMap f).filter p).map g) = sumR (l.map fun i => sumR (((f i).filter p).map g)) := by
@@ -317,5 +317,69 @@ theorem nLabels_append (l₁ l₂ : List Nat) : nLabels (l₁ ++ l₂) = max (nL
     have h2 : nLabels l₂ ≤ nLabels (l₁ ++ l₂) :=
       (nLabels_le_iff _ _).mpr (fun x hx => h x (List.mem_append.mpr (Or.inr hx)))
     omega
+
+/-! ### labels and secondary outputs together -/
+
+/-- ★ the dispatcher `_secondary_outputs` on the labels produced by a fit: for a valid clustering `L` of the `N`
+    nodes, split by `_split_vars`, and an input matrix with non-negative weights whose shape matches
+    (`N × N`, or `n_row × n_col` with `N = n_row + n_col`), it never raises and `SecondaryOK` holds. -/
+theorem secondary_of_valid {a : SpMat} {nCol N : Nat} {L : List Nat} {sorted : Bool} (bipartite : Bool) (nRow : Nat)
+    (hv : ValidClustering N L sorted)
+    (hshape : if bipartite then a.length = nRow ∧ N = nRow + nCol ∧ 0 < nRow ∧ 0 < nCol
+              else a.length = N ∧ nCol = N ∧ 0 < N)
+    (hcols : ∀ row ∈ a, ∀ e ∈ row, e.1 < nCol) (hw : ∀ row ∈ a, ∀ e ∈ row, 0 ≤ e.2) (rp ra : Bool) :
+    ∃ s, secondary a nCol (splitVars bipartite nRow L) bipartite rp ra = .ok s ∧
+      SecondaryOK a nCol (splitVars bipartite nRow L) bipartite rp ra s := by
+  have hlen := hv.1
+  unfold secondary
+  by_cases hnone : (rp || ra) = false
+  · have hrp : rp = false := by cases rp <;> simp_all
+    have hra : ra = false := by cases ra <;> simp_all
+    subst hrp; subst hra
+    exact ⟨_, rfl, by simp [SecondaryOK]⟩
+  · have hsome : (!(rp || ra)) = false := by simpa using hnone
+    simp only [hsome, Bool.false_eq_true, if_false]
+    cases bipartite with
+    | false =>
+      simp only [Bool.not_false, if_true, Bool.false_eq_true, if_false] at hshape ⊢
+      obtain ⟨hal, hnc, hpos⟩ := hshape
+      have hne : L ≠ [] := by intro h; rw [h] at hlen; simp at hlen; omega
+      have hsq : L.length = a.length := by rw [hlen, hal]
+      obtain ⟨s, hs, hp, hg⟩ := secondarySquare_spec hne hsq (fun row hr e he => by rw [hlen, ← hnc]; exact hcols row hr e he)
+        hw rp ra
+      rw [show (splitVars false nRow L).labels = L from rfl, hnc, ← hlen]
+      refine ⟨s, hs, ?_⟩
+      unfold secondarySquare at hs
+      obtain ⟨m, hm, _⟩ := maxLabel?_eq hne
+      simp only [hm, bne_self_eq_false, Bool.false_eq_true, if_false, hsq, Bool.and_false] at hs
+      cases hs
+      simp only [SecondaryOK, Bool.false_eq_true, if_false, show (splitVars false nRow L).labels = L from rfl]
+      constructor
+      · cases rp with
+        | false => simp
+        | true =>
+          simp only [if_true] at hp ⊢
+          obtain ⟨P, hP, hok⟩ := hp
+          exact ⟨P, hP, hok, by simp⟩
+      · exact hg
+    | true =>
+      simp only [if_true, Bool.not_true, Bool.false_eq_true, if_false] at hshape ⊢
+      obtain ⟨hal, hN, hr0, hc0⟩ := hshape
+      have htake : (L.take nRow).length = nRow := by simp; omega
+      have hdrop : (L.drop nRow).length = nCol := by simp; omega
+      have hr : L.take nRow ≠ [] := by intro h; rw [h] at htake; simp at htake; omega
+      have hc : L.drop nRow ≠ [] := by intro h; rw [h] at hdrop; simp at hdrop; omega
+      obtain ⟨s, hs, hp, hg⟩ := secondaryBip_spec hr hc (by rw [htake, hal]) hdrop hcols hw rp ra
+      simp only [splitVars, if_true]
+      refine ⟨s, hs, ?_⟩
+      simp only [SecondaryOK, if_true, Option.getD_some, nLabels_append]
+      constructor
+      · cases rp with
+        | false => simpa using hp
+        | true =>
+          simp only [if_true] at hp ⊢
+          obtain ⟨Pr, Pc, h1, h2, h3, h4, h5⟩ := hp
+          exact ⟨Pr, h2, h4, h1, Pc, h3, h5⟩
+      · exact hg
 
 end SkNet.Clustering
